@@ -48,7 +48,7 @@ def validate (env : Env) (key : Option String) (d : Disk) (m : Meta) : Bool :=
 def Disk.deleteArtifacts (d : Disk) (n : Nat) : Disk :=
   match d.patches with
   | none => d
-  | some p => { d with patches := some { p with arts := updArts p.arts n none } }
+  | some p => { d with patches := some { p with arts := eraseArt p.arts n } }
 
 def PM.deleteArtifacts (pm : PM) (n : Nat) : PM :=
   { pm with disk := pm.disk.deleteArtifacts n }
@@ -64,35 +64,42 @@ def PM.tryFallBack (env : Env) (key : Option String) (pm : PM) (badN : Nat) : PM
     match pm.ps.last with
     | some lb =>
       if lb.number ≠ badN ∧ validate env key pm.disk lb then
-        { pm with ps := { pm.ps with next := some lb } }
+        -- only when nothing is selected any more
+        (match pm.ps.next with
+        | none => { pm with ps := { pm.ps with next := some lb } }
+        | some _ => pm)
       else
         ({ pm with ps := { pm.ps with last := none } } : PM).deleteArtifacts lb.number
     | none => pm
   pm.save
 
-/-- `delete_patch_artifacts_older_than`: every numeric entry below `n`, and every entry whose name
-    is not a number. `false` = `read_dir` failed (no `patches/`). -/
+/-- `delete_patch_artifacts_older_than`: every numeric entry below `n` other than the selected
+    next boot patch, and every entry whose name is not a number.
+    `false` = `read_dir` failed (no `patches/`). -/
 def PM.deleteOlderThan (pm : PM) (n : Nat) : PM × Bool :=
   match pm.disk.patches with
   | none => (pm, false)
   | some p =>
     ({ pm with disk := { pm.disk with
-        patches := some { arts := fun k => if k < n then none else p.arts k, junk := [] } } }, true)
+        patches := some { arts := p.arts.filter (fun e => ¬ (e.1 < n ∧ some e.1 ≠ pm.ps.next.map (·.number))),
+                          junk := [] } } }, true)
 
 /-- `create_dir_all(patches/<n>)` then `rename(file, patches/<n>/dlc.vmcode)`. -/
 def Disk.placeArtifact (d : Disk) (n : Nat) (b : Bytes) : Disk :=
   match d.patches with
-  | none => { d with patches := some { arts := updArts (fun _ => none) n (some (.file b)), junk := [] } }
-  | some p => { d with patches := some { p with arts := updArts p.arts n (some (.file b)) } }
+  | none => { d with patches := some { arts := [(n, .file b)], junk := [] } }
+  | some p => { d with patches := some { p with arts := setArt p.arts n (.file b) } }
 
 /-- `add_patch` (the inflated file always exists when this is reached from `update`). -/
 def PM.addPatch (pm : PM) (n : Nat) (b : Bytes) (hash : String) (sig : Option String) : PM :=
   let pm : PM := { pm with disk := pm.disk.placeArtifact n b }
   let newPatch : Meta := { number := n, size := b.length, hash := hash, sig := sig }
   let pm : PM :=
-    match pm.ps.next, pm.ps.last with
-    | some lastBootPatch, some nextBootPatch =>     -- sic: the bindings are crossed in the code
-      if lastBootPatch.number ≠ nextBootPatch.number then pm.deleteArtifacts nextBootPatch.number else pm
+    match pm.ps.last, pm.ps.next with
+    | some lastBootPatch, some nextBootPatch =>
+      let isBooting := pm.ps.booting.map (·.number) = some nextBootPatch.number
+      if lastBootPatch.number ≠ nextBootPatch.number ∧ nextBootPatch.number ≠ n ∧ ¬ isBooting
+      then pm.deleteArtifacts nextBootPatch.number else pm
     | _, _ => pm
   ({ pm with ps := { pm.ps with next := some newPatch } } : PM).save
 
